@@ -284,6 +284,8 @@ class SimKernel(object):
             rec["failed"] = True
             rec["pid"] = None
             self.spawn_log.append(rec)
+            if getattr(self, 'fail_cost', None) is not None:
+                self.fail_cost()   # a failed fork+exec still takes time
             if beh.get("exec_fail") == 'value':
                 # what a misconfigured rlimit / unknown user / unbalanced
                 # quote gives: the spawn fails before anything is forked
